@@ -114,6 +114,37 @@ Proof.
 Qed.
 Print Assumptions c05_gc_safe_rs_refuted.
 
+(* the same defect in the other order (quick seed 8, case 4 of the harness): the instruction is computed BEFORE the repair starts,
+   while the server holds a copy the metadata does not name, and executes between the repair's write and its commit *)
+Definition f5_schedule_before_commit : list pev :=
+  [ PRSCommit 100 [1; 2; 3; 4; 5; 6; 7; 8; 9];
+    PRSWrite 10 102;                                 (* server 10 holds a leftover copy of piece 102 (holder: server 3) *)
+    PReport 10 [(-2, 102)];                          (* nothing pending: "gone", instruction 0, delayed *)
+    PRSBegin 100 9; PRSWrite 10 102 ].               (* server 3 fails; reconstruction marks the pieces and writes 102 to server 10 *)
+
+(* [REFUTED] second witness for the erasure coded clause: the delayed instruction 0 executes while the reconstruction is in progress with the piece pending and removes the freshly written piece and the commit that follows names server 10 as holder of a piece it no longer has; the pending pieces set cannot prevent it because the instruction predates the marking *)
+Theorem c05_gc_safe_rs_refuted_before_commit : exists evs k s p hosts,
+  let st := prun pinit evs in
+  In (-2, p) (p_pend st) /\ In (s, (-2, p)) (removals st k false) /\
+  let st' := pstep (pstep st (PDeliver k false)) (PRSUpdate 100 hosts) in
+  lookup_piece (p_chunks st') p = Some s /\ p_rep st' (s, (-2, p)) = None.
+Proof.
+  exists f5_schedule_before_commit, 0%nat, 10, 102, [1; 2; 10; 4; 5; 6; 7; 8; 9]. vm_compute.
+  split; [right; right; left; reflexivity|]. split; [left; reflexivity|]. split; reflexivity.
+Qed.
+Print Assumptions c05_gc_safe_rs_refuted_before_commit.
+
+(* [FULL] what the pending pieces set does guarantee: an instruction computed from a report while a piece is marked pending in the computing incarnation never contains that piece so a removal of a pending piece can only come from an instruction computed before the marking or by another incarnation *)
+Theorem c05_pending_piece_not_in_new_instruction : forall st s ids t i,
+  In t (p_pend st) -> In i (p_soup (pstep st (PReport s ids))) -> ~ In i (p_soup st) -> ~ In t (pi_gone i).
+Proof.
+  intros st s ids t i Hp Hi Hn Hg. cbn in Hi. destruct (forallb (id_ok st) ids); [|contradiction].
+  unfold check_for_garbage_f in Hi. cbn in Hi. apply in_app_iff in Hi as [Hi|[Hi|[]]]; [contradiction|]. subst i. cbn in Hg.
+  apply filter_In in Hg as [_ Hg]. apply negb_true_iff in Hg.
+  assert (X : tmem t (p_pend st) = true); [|congruence]. unfold tmem. apply existsb_exists. exists t. split; auto. apply tid_eqb_refl.
+Qed.
+Print Assumptions c05_pending_piece_not_in_new_instruction.
+
 Definition RSInv (st : pstate) : Prop :=
   forall i t, In i (p_soup st) -> In t (pi_gone i) -> is_rs t = true ->
     lookup_piece (pi_chunks i) (snd t) <> Some (pi_ts i).
